@@ -13,6 +13,8 @@
 //   st-timewait-early          TIME-WAIT left by a poll earlier than 10 s after it was (re)entered
 //   st-timewait-late           still TIME-WAIT after a complete poll at or after the 10 s deadline
 //   st-closed-by-poll          a poll closed a connection with no timeout configured and not from TIME-WAIT
+//   impl-panic / poll-livelock the real socket panicked / Interface::poll did not stop emitting (not C17 proper,
+//                              but a concrete failing input of the code the model covers)
 
 const CLOSE_DELAY_MS: i64 = 10_000; // "TIME-WAIT ends by itself after 10 s" (property text)
 
@@ -72,10 +74,12 @@ fn oracle_case(c: &Case, fails: &mut Vec<String>, stats: &mut BTreeMap<String, u
         let st = sim.step(op);
         if st.panicked {
             *stats.entry("impl_panics".into()).or_default() += 1;
+            fails.push(format!("impl-panic :: case {} op#{} `{}`: the implementation panicked in state {:?}", c.id, k, op, pre));
             return;
         }
         if st.livelock {
             *stats.entry("poll_livelocks".into()).or_default() += 1;
+            fails.push(format!("poll-livelock :: case {} op#{} `{}`: Interface::poll emitted more than {} frames", c.id, k, op, POLL_FRAME_LIMIT));
             return;
         }
         let post = sim.state();
